@@ -228,7 +228,7 @@ func H02Update() {
 	var original, target ResourceList
 	for i := range slots {
 		s := &slots[i]
-		s.k = c02Key{c02Kinds[ndChoice("kind", 2)], c02Spaces[ndChoice("ns", 2)], c02Names[ndChoice("name", 2)]}
+		s.k = c02Key{c02Kinds[ndChoice("kind", 2)], c02Spaces[ndChoice("ns", vBound("spaces", 2))], c02Names[ndChoice("name", 2)]}
 		for j := 0; j < i; j++ {
 			vAssume(slots[j].k != s.k) // distinct identities (kind, namespace, name)
 		}
@@ -301,7 +301,7 @@ func H02Delete() {
 	var keys []c02Key
 	live := map[c02Key]bool{}
 	for i := 0; i < n; i++ {
-		k := c02Key{c02Kinds[ndChoice("kind", 2)], c02Spaces[ndChoice("ns", 2)], c02Names[ndChoice("name", 2)]}
+		k := c02Key{c02Kinds[ndChoice("kind", 2)], c02Spaces[ndChoice("ns", vBound("spaces", 2))], c02Names[ndChoice("name", 2)]}
 		for _, p := range keys {
 			vAssume(p != k)
 		}
